@@ -366,39 +366,65 @@ def r8_lenses(ctx):
     F = ctx.facts
     L = "mahf::lens::common::"
     n = 0
-    for adt, shared, excl in ((L + "ValueOf", "try_borrow_value", "try_borrow_value_mut"), (L + "IdLens", "try_borrow", "try_borrow_mut")):
-        for meth, trait, fam in (("get_ref", "mahf::lens::LensRef", shared), ("get_mut", "mahf::lens::LensMut", excl), ("get", "mahf::lens::Lens", shared)):
+    import statemodel
+    for adt, whole in ((L + "ValueOf", False), (L + "IdLens", True)):
+        for meth, trait in (("get_ref", "mahf::lens::LensRef"), ("get_mut", "mahf::lens::LensMut"), ("get", "mahf::lens::Lens")):
             fn = F.method(adt, meth, trait)
             bad = []
             for present in (True, False):
-                asked = []
+                # the lens' own T is a cell of the typed store (a newtype around `inner-of-T`); another state type U is there too
+                tval = Agg("adt", "T", "T", [Sym("inner-of-T")])
+                store = statemodel.Store(F, levels=1, newtypes=("T", "U"))
+                store.cell("T", 0, tval if present else statemodel.ABSENT)
+                store.cell("U", 0, Agg("adt", "U", "U", [Sym("inner-of-U")]))
 
-                def acc(interp, env, f, args, present=present, fam=fam):
-                    asked.append((f.get("name"), (f.get("cgargs") or f.get("gargs") or [None])[0]))
-                    return ok(Sym("guard-of-T")) if present else err(Sym("StateError::NotFound"))
-                table = {"mahf::state::registry::StateRegistry::" + fam: acc, "core::clone::Clone::clone": lambda i, e, f, a: Sym("clone-of:%s" % getattr(load(i, e, a[0]), "tag", "?"))}
+                def orc(interp, env, f, args, t, bb, path):
+                    k_ = f.get("key", "")
+                    if k_ in ("core::ops::deref::Deref::deref", "core::ops::deref::DerefMut::deref_mut") and (f.get("gargs") or [None])[0] == "T" and isinstance(args[0], Ref):
+                        return Ref(args[0].local, list(args[0].proj) + [["f", 0, None]], frame=args[0].frame)      # T: Deref - a newtype around its target
+                    return TOP
                 if meth == "get":
                     gr = F.method(adt, "get_ref", "mahf::lens::LensRef")
 
-                    def via_get_ref(interp, env, f, args, gr=gr):
-                        # `self.get_ref(..)` on `Self: LensRef<P>`: the lens' own implementation
-                        outs_ = interp.call_body(gr, list(args))
-                        if len(outs_) == 1 and outs_[0][2] == "return":
-                            interp.mstate.clear()
-                            interp.mstate.update(outs_[0][3])
-                            return outs_[0][0]
-                        return TOP
-                    table["mahf::lens::LensRef::get_ref"] = via_get_ref
-                it = install(Interp(fn.body, chain(mk_oracle(table), coll_oracle, std_oracle), [Sym("self"), Sym("problem"), Sym("state")], facts=F,
-                                    inline=lambda k: k.startswith("<" + L) or k.startswith(L), max_visits=6))
+                    def orc(interp, env, f, args, t, bb, path, gr=gr, base=orc):
+                        if f.get("key") == "mahf::lens::LensRef::get_ref":
+                            # `self.get_ref(..)` on `Self: LensRef<P>`: the lens' own implementation
+                            outs_ = interp.call_body(gr, list(args))
+                            if len(outs_) == 1 and outs_[0][2] == "return":
+                                interp.mstate.clear()
+                                interp.mstate.update(outs_[0][3])
+                                return outs_[0][0]
+                            return TOP
+                        return base(interp, env, f, args, t, bb, path)
+                it = install(Interp(fn.body, chain(orc, store, coll_oracle, std_oracle), [Sym("self"), Sym("problem"), Sym("state")], facts=F,
+                                    inline=lambda k: k.startswith("<" + L) or k.startswith(L) or statemodel.inline(k), max_visits=6))
+                it.init_state = {}
+                store.install(it)
                 n += 1
-                outs = [(p.end, p.ret.variant if isinstance(p.ret, Agg) else None, getattr(p.ret.fields[0], "tag", None) if isinstance(p.ret, Agg) and p.ret.fields and p.ret.variant == "Ok" else None) for p in it.run()]
-                want_val = ("clone-of:guard-of-T" if meth == "get" else "guard-of-T") if present else None
-                want = [("return", "Ok" if present else "Err", want_val)]
-                tys = {t for _, t in asked}
-                if outs != want or tys - {"T"} or not asked:
-                    bad.append(("present" if present else "missing", "yields %s after asking the registry for %s; expected %s from the lens' own T" % (outs, sorted(map(str, asked)), want)))
-            ctx.check(not bad, "C10.R8", fn.key, "own-state-" + meth, "with T %s: %s %s" % (bad[0] if bad else ("", ""), ) if False else "with T %s: %s" % (bad[0] if bad else ("", "")), loc=fn.loc())
+                paths = it.run()
+                what = "present" if present else "missing"
+                if len(paths) != 1 or paths[0].end != "return" or not isinstance(paths[0].ret, Agg):
+                    bad.append((what, "is not decided (%s)" % [(p.end, str(p.ret)[:40]) for p in paths]))
+                    continue
+                r = paths[0].ret
+                if not present:
+                    if r.variant != "Err":
+                        bad.append((what, "yields %s, expected an Err" % (r,)))
+                    continue
+                if r.variant != "Ok":
+                    bad.append((what, "yields %s although T is there" % (r,)))
+                    continue
+                got = r.fields[0]
+                want_home = store.homes[("T", 0)]
+                want_proj = [] if whole else [["f", 0, None]]
+                if meth in ("get_ref", "get_mut"):
+                    if not (isinstance(got, Ref) and got.local == want_home and [list(x) for x in got.proj] == want_proj):
+                        bad.append((what, "hands out %s, expected access to %s of the lens' own T in the state" % (got, "the whole" if whole else "the inner value")))
+                else:
+                    v = load(it, paths[0].env, got)
+                    if str(v) != str(tval if whole else Sym("inner-of-T")):
+                        bad.append((what, "yields %s, expected a copy of %s of the lens' own T" % (v, "the whole" if whole else "the inner value")))
+            ctx.check(not bad, "C10.R8", fn.key, "own-state-" + meth, "with T %s: %s" % (bad[0] if bad else ("", "")), loc=fn.loc())
     # assign = store through get_mut
     asg = F.fn_opt("<E as mahf::lens::LensAssign>::assign")
     if asg is not None:
